@@ -213,6 +213,8 @@ def generate(seed, tier):
             op['fix_flags'] = r.random() < 0.7
         sc['ops'].append(op)
     sc['ops'].sort(key=lambda x: x['t'])
+    if r.random() < 0.3:
+        sc['prekey_stray'] = {'seed': r.randrange(2 ** 31), 'p': r.choice([0.5, 1.0])}
     return sc
 
 
@@ -245,6 +247,29 @@ def run(scenario):
                             ctx['same_keys'].add(sha(data))
         w.monitors.append(KeyAgreement())
         ctx['handlers'] = {'tamper': ctx['tamperer']}
+        if scenario.get('prekey_stray'):
+            pk = scenario['prekey_stray']
+
+            class PreKeyStray:
+                """A stray request aimed at an initiator that has no keys yet (between its IKE_SA_INIT request and the answer): whatever it
+                replies goes out without protection - it must not carry a payload."""
+                n = 0
+
+                def on_wire(self, meta, data):
+                    h = parse_header(data)
+                    if h is None or meta['sender'] not in w.nodes or h['exch'] != 34 or h['R']:
+                        return
+                    self.n += 1
+                    rr = random.Random(f'prekey:{pk["seed"]}:{self.n}')
+                    if rr.random() >= pk['p']:
+                        return
+                    exch = rr.choice([35, 36, 37])
+                    body = b'' if rr.random() < 0.5 else struct.pack('>BBHBBH', 0, 0, 8, 0, 0, 16384)
+                    d = h['spi_i'] + rr.choice([b'\0' * 8, bytes(rr.getrandbits(8) for _ in range(8))]) + \
+                        bytes([41 if body else 0, 0x20, exch, 0x00]) + struct.pack('>LL', rr.choice([0, 0, 1]), 28 + len(body)) + body
+                    ctx.setdefault('reach', {})['prekey_stray'] = ctx.setdefault('reach', {}).get('prekey_stray', 0) + 1
+                    w.net.inject(d, meta['dst'], meta['src'], 0.0, 'forge.prekey_stray')
+            w.net.taps.append(PreKeyStray())
         # a peer that pads more than the minimum: some protected datagrams are re-sealed in flight (same payloads, same keys, a fresh IV,
         # 0-15 extra blocks of padding and Padding octets of any value).  "For every payload list ... a protected message parses back under the same keys"
         from sim.interpose import Interposer
